@@ -6,6 +6,7 @@ import (
 	"os"
 	"path/filepath"
 	"strings"
+	"verif/evid"
 
 	"github.com/tonistiigi/fsutil"
 	"github.com/tonistiigi/fsutil/types"
@@ -93,10 +94,12 @@ func newSyncDirs() *syncDirs {
 	os.Mkdir(d.dst, 0755)
 	os.Symlink("src", d.src+".lnk")
 	os.Symlink(d.dst, d.dst+".lnk")
+	// ... and a symlinked ANCESTOR of both (a state directory behind /var/run -> /run)
+	os.Symlink(filepath.Base(root), root+".up")
 	return d
 }
 
-func (d *syncDirs) close() { scratch.Remove(d.root) }
+func (d *syncDirs) close() { scratch.Remove(d.root); os.Remove(d.root + ".up") }
 
 // resetSrc replaces the on-disk source by the tree.
 func (d *syncDirs) resetSrc(t fsmodel.Tree) error {
@@ -219,6 +222,9 @@ func (d *syncDirs) transferFault(c SyncCase, srcTree fsmodel.Tree, fault xfer.Fa
 	dstArg := d.dst
 	if c.ViaLinks {
 		dstArg += ".lnk"
+		if evid.H(c.String())%2 == 1 {
+			dstArg = filepath.Join(d.root+".up", "dst") // the link is an ancestor, the last component a real directory
+		}
 	}
 	o.Res = xfer.RunFault(src, dstArg, opt, nil, fault)
 	o.Notes = notes.List
